@@ -5,6 +5,7 @@ package main
 import (
 	"fmt"
 	"go/token"
+	"go/types"
 	"sort"
 	"strings"
 
@@ -416,15 +417,6 @@ func c09StartTime(r *Run, site *cutSite, fn *ssa.Function, call *ssa.Call) {
 // ---------------------------------------------------------------------------------------------
 // R5 / R6: sync spacing in the replica-set Reconcile
 
-type syncSite struct {
-	rec    *ssa.Function
-	ff     *FuncFacts
-	clock  *ssa.Alloc // the cell holding the sync's clock value
-	rs     ssa.Value  // the replica set just read
-	owner  ssa.Value  // the parent ExtendedDaemonSet
-	podOps []*ssa.Call
-}
-
 // writesPods reports whether fn (or anything it reaches) writes pods through the client.
 func writesPods(p *Prog, fn *ssa.Function, memo map[*ssa.Function]bool) bool {
 	if v, ok := memo[fn]; ok {
@@ -440,12 +432,70 @@ func writesPods(p *Prog, fn *ssa.Function, memo map[*ssa.Function]bool) bool {
 	return res
 }
 
+// rootLeaves traces the object a value is read from (the root of its access path: a local variable,
+// a parameter, a call result) back to its provenance leaves across call sites.
+func rootLeaves(tr *ipTracer, v ssa.Value, fn *ssa.Function) []ipLeaf {
+	root, _ := accessPath(v)
+	if a, ok := root.(*ssa.Alloc); ok {
+		var out []ipLeaf
+		n := 0
+		for _, rf := range refs(a) {
+			if st, ok := rf.(*ssa.Store); ok && st.Addr == ssa.Value(a) {
+				out = append(out, tr.trace(st.Val, fn)...)
+				n++
+			}
+		}
+		if n > 0 {
+			return out
+		}
+		return []ipLeaf{{v: a, fn: fn}}
+	}
+	return tr.trace(root, fn)
+}
+
+func sameLeaves(a, b []ipLeaf) bool {
+	if len(a) == 0 || len(b) == 0 {
+		return false
+	}
+	in := func(x ipLeaf, ys []ipLeaf) bool {
+		for _, y := range ys {
+			if x.v == y.v {
+				return true
+			}
+		}
+		return false
+	}
+	for _, x := range a {
+		if !in(x, b) {
+			return false
+		}
+	}
+	for _, y := range b {
+		if !in(y, a) {
+			return false
+		}
+	}
+	return true
+}
+
+// c09Gate is the spacing test found in the code reachable from the Reconcile.
+type c09Gate struct {
+	fn    *ssa.Function // function containing the test
+	call  *ssa.Call     // After/Before call
+	cond  ssa.Value     // the LastFullSync condition value
+	clock []ipLeaf      // provenance of the reference time
+	rs    []ipLeaf      // provenance of the replica set whose status is read
+	notes []string
+}
+
 func c09Spacing(r *Run) {
 	rec := r.Prog.Method(pkgERS, "Reconciler", "Reconcile")
 	if rec == nil {
 		r.Fatal("anchor (%s.Reconciler).Reconcile not found", pkgERS)
 		return
 	}
+	reach := r.Prog.reachableFuncs(rec)
+	tr := &ipTracer{reach: reach, depth: 8}
 	ff := computeFacts(rec)
 	k := ff.K
 	memo := map[*ssa.Function]bool{}
@@ -464,15 +514,16 @@ func c09Spacing(r *Run) {
 		return
 	}
 	lastFull, _ := r.Prog.constStr(pkgAPI, "ConditionTypeLastFullSync")
-
-	// --- the spacing test: After(Add(cond.LastUpdateTime, freq), now) or Before(now, Add(...))
-	type gate struct {
-		call  *ssa.Call
-		cond  ssa.Value // the LastFullSync condition value
-		notes []string
+	isClockSource := func(v ssa.Value) bool {
+		return dependsOn(v, func(x ssa.Value) bool {
+			c, isC := x.(*ssa.Call)
+			return isC && (calleeName(&c.Call) == "time.Now" || calleeName(&c.Call) == pkgMetaV1+".Now")
+		})
 	}
-	var gates []*gate
-	classify := func(c *ssa.Call) *gate {
+
+	// --- the spacing test: After(Add(cond.LastUpdateTime, freq), now) or Before(now, Add(...)), in the
+	// Reconcile itself or in a helper it reaches
+	classify := func(fn *ssa.Function, c *ssa.Call) *c09Gate {
 		var next, now ssa.Value
 		switch calleeName(&c.Call) {
 		case "(time.Time).After":
@@ -495,91 +546,147 @@ func c09Spacing(r *Run) {
 		if !isS || s != lastFull {
 			return nil
 		}
-		g := &gate{call: c, cond: lroot}
+		g := &c09Gate{fn: fn, call: c, cond: lroot}
 		if len(lpath) == 0 || lpath[0] != "LastUpdateTime" {
 			g.notes = append(g.notes, "the previous sync time is read from "+strings.Join(lpath, ".")+" instead of LastUpdateTime")
 		}
-		// the condition is read from the status of an object returned by a Get in this Reconcile
 		sroot, spath := accessPath(gc.Call.Args[0])
 		if len(spath) != 1 || spath[0] != "Status" || !isPtrToNamed(sroot.Type(), pkgAPI, "ExtendedDaemonSetReplicaSet") {
 			g.notes = append(g.notes, "the condition is not read from the replica set's status")
 		}
+		g.rs = tr.trace(sroot, fn)
 		proot, ppath := accessPath(add.Call.Args[1])
 		if !isPtrToNamed(proot.Type(), pkgAPI, "ExtendedDaemonSet") || strings.Join(ppath, ".") != "Spec.Strategy.ReconcileFrequency.Duration" {
 			g.notes = append(g.notes, "the period is "+pathString(add.Call.Args[1])+" instead of the owner's Spec.Strategy.ReconcileFrequency.Duration")
 		}
-		nroot, _ := accessPath(now)
-		if _, isAlloc := nroot.(*ssa.Alloc); !isAlloc {
-			g.notes = append(g.notes, "the reference time is not the sync's clock variable")
+		g.clock = rootLeaves(tr, now, fn)
+		okClock := len(g.clock) == 1 && g.clock[0].fn == rec && isClockSource(g.clock[0].v)
+		if !okClock {
+			g.notes = append(g.notes, "the reference time is not the Reconcile's single clock read (time.Now()): "+describeLeaves(g.clock))
 		}
 		return g
 	}
-	for _, ci := range callsIn(rec) {
-		if c, ok := ci.(*ssa.Call); ok {
-			if g := classify(c); g != nil {
-				gates = append(gates, g)
+	var gates []*c09Gate
+	for _, fn := range sortedFuncs(reach) {
+		if !r.Prog.IsRuleSite(fn) {
+			continue
+		}
+		for _, ci := range callsIn(fn) {
+			if c, ok := ci.(*ssa.Call); ok {
+				if g := classify(fn, c); g != nil {
+					gates = append(gates, g)
+				}
 			}
 		}
 	}
 	if len(gates) != 1 {
 		r.Check("C09.R5", "spacing test", r.Prog.Pos(rec.Pos()), shortFunc(rec),
-			"one test LastUpdateTime(LastFullSync) + ReconcileFrequency after/before now", false, fmt.Sprintf("%d candidate tests found", len(gates)))
+			"one test LastUpdateTime(LastFullSync) + ReconcileFrequency after/before now in the code reachable from the Reconcile", false, fmt.Sprintf("%d candidate tests found", len(gates)))
 		relaxFloors(r, "C09.R5")
-		c09StatusWrite(r, rec, ff, podOps, nil, nil, lastFull)
+		c09StatusWrite(r, rec, reach, tr, nil, lastFull, isClockSource)
 		return
 	}
 	g := gates[0]
-	gc, _ := isCallTo(g.cond, fnERSCondGet)
-	rsRoot, _ := accessPath(gc.Call.Args[0])
-	var clock *ssa.Alloc
-	{
-		var now ssa.Value
-		if calleeName(&g.call.Call) == "(time.Time).After" {
-			now = g.call.Call.Args[1]
-		} else {
-			now = g.call.Call.Args[0]
-		}
-		nroot, _ := accessPath(now)
-		clock, _ = nroot.(*ssa.Alloc)
-	}
-	// the clock cell is written once, from time.Now()
-	if clock != nil {
-		n, fromNow := 0, true
-		for _, rf := range refs(clock) {
-			if st, ok := rf.(*ssa.Store); ok && st.Addr == ssa.Value(clock) {
-				n++
-				if !dependsOn(st.Val, func(x ssa.Value) bool {
-					c, isC := x.(*ssa.Call)
-					return isC && (calleeName(&c.Call) == "time.Now" || calleeName(&c.Call) == pkgMetaV1+".Now")
-				}) {
-					fromNow = false
-				}
-			}
-		}
-		if n != 1 || !fromNow {
-			g.notes = append(g.notes, "the sync's clock variable is not assigned exactly once from time.Now()")
-		}
-	}
-	r.Check("C09.R5", "spacing test operands", r.Prog.Pos(g.call.Pos()), shortFunc(rec),
+	r.Check("C09.R5", "spacing test operands", r.Prog.Pos(g.call.Pos()), shortFunc(g.fn),
 		"the test compares LastUpdateTime of the LastFullSync condition of the replica set just read + owner.Spec.Strategy.ReconcileFrequency with the sync's clock value",
 		len(g.notes) == 0, strings.Join(g.notes, "; "))
 
-	// --- pass edges: the edges on which "condition absent" or "not (next after now)" is learned
-	cut := map[[2]*ssa.BasicBlock]bool{}
-	for _, b := range rec.Blocks {
-		if len(b.Succs) != 2 || b.Succs[0] == b.Succs[1] {
-			continue
+	// isPassFact: the fact lets the sync proceed (condition absent, or period elapsed)
+	isPassFact := func(f Fact) bool {
+		if f.V == ssa.Value(g.call) && !f.Pol {
+			return true
 		}
-		for _, s := range b.Succs {
-			for _, f := range k.edgeFacts(b, s) {
-				if f.V == ssa.Value(g.call) && !f.Pol {
-					cut[[2]*ssa.BasicBlock{b, s}] = true
-				}
-				if f.Pol && isNilCompareOf(f.V, func(x ssa.Value) bool { return x == g.cond }) {
-					cut[[2]*ssa.BasicBlock{b, s}] = true
+		return f.Pol && isNilCompareOf(f.V, func(x ssa.Value) bool { return x == g.cond })
+	}
+	cut := map[[2]*ssa.BasicBlock]bool{}
+	if g.fn == rec {
+		for _, b := range rec.Blocks {
+			if len(b.Succs) != 2 || b.Succs[0] == b.Succs[1] {
+				continue
+			}
+			for _, s := range b.Succs {
+				for _, f := range k.edgeFacts(b, s) {
+					if isPassFact(f) {
+						cut[[2]*ssa.BasicBlock{b, s}] = true
+					}
 				}
 			}
 		}
+	} else {
+		// the test lives in a helper: read off which boolean result value the helper can return on a
+		// path that carries no passing fact (a "blocking" value); in the Reconcile the passing edges
+		// are those on which the helper's result is known to differ from every blocking value.
+		h := g.fn
+		sites := callSitesOf(h, map[*ssa.Function]bool{rec: true})
+		paths, _, ok := funcPaths(h, 5000)
+		r.paths += len(paths)
+		found := false
+		why := "the helper " + shortFunc(h) + " holding the spacing test is not called from the Reconcile"
+		if len(sites) > 0 && ok {
+			why = "no boolean result of " + shortFunc(h) + " separates the passing outcomes of the spacing test from the blocking one"
+			res := h.Signature.Results()
+			for j := 0; j < res.Len() && !found; j++ {
+				if b, isB := res.At(j).Type().Underlying().(*types.Basic); !isB || b.Kind() != types.Bool {
+					continue
+				}
+				blocking := map[bool]bool{}
+				unknown := false
+				for _, p := range paths {
+					pass := false
+					for _, f := range p.Facts {
+						if isPassFact(f) {
+							pass = true
+						}
+					}
+					if pass {
+						continue
+					}
+					ret := returnOf(p.Blocks[len(p.Blocks)-1])
+					if bv, isC := constBool(p.Resolve(ret.Results[j])); isC {
+						blocking[bv] = true
+					} else {
+						unknown = true
+					}
+				}
+				if unknown || len(blocking) != 1 {
+					continue
+				}
+				var blockVal bool
+				for v := range blocking {
+					blockVal = v
+				}
+				found = true
+				for _, cs := range sites {
+					var resVal ssa.Value
+					if res.Len() == 1 {
+						resVal, _ = cs.(*ssa.Call)
+					} else if c, isCall := cs.(*ssa.Call); isCall {
+						for _, rf := range refs(c) {
+							if e, isE := rf.(*ssa.Extract); isE && e.Index == j {
+								resVal = e
+							}
+						}
+					}
+					if resVal == nil {
+						continue
+					}
+					for _, b := range rec.Blocks {
+						if len(b.Succs) != 2 || b.Succs[0] == b.Succs[1] {
+							continue
+						}
+						for _, s := range b.Succs {
+							for _, f := range k.edgeFacts(b, s) {
+								if f.V == resVal && f.Pol != blockVal {
+									cut[[2]*ssa.BasicBlock{b, s}] = true
+								}
+							}
+						}
+					}
+				}
+			}
+		}
+		r.Check("C09.R5", "spacing test result", r.Prog.Pos(h.Pos()), shortFunc(h),
+			"the helper holding the spacing test reports through a boolean result whether the sync may proceed", found, map[bool]string{true: "", false: why}[found])
 	}
 	for _, op := range podOps {
 		free := entryReachesWithoutEdges(rec, op.Block(), cut)
@@ -587,13 +694,19 @@ func c09Spacing(r *Run) {
 			"a call that can write pods is reached only when the LastFullSync condition is absent or the reconcile period has elapsed", !free,
 			map[bool]string{true: "the call can be reached on a path that takes neither passing outcome of the spacing test", false: ""}[free])
 	}
-	c09StatusWrite(r, rec, ff, podOps, clock, rsRoot, lastFull)
+	c09StatusWrite(r, rec, reach, tr, g, lastFull, isClockSource)
 }
 
-// c09StatusWrite checks R6.
-func c09StatusWrite(r *Run, rec *ssa.Function, ff *FuncFacts, podOps []*ssa.Call, clock *ssa.Alloc, rs ssa.Value, lastFull string) {
-	k := ff.K
-	// status writers: callees that perform Status().Update on a replica set
+// c09StatusWrite checks R6 on the interprocedural control flow: after every pod write, every way
+// back to a return of the Reconcile updates LastFullSync (valid arguments) and then writes that status.
+func c09StatusWrite(r *Run, rec *ssa.Function, reach map[*ssa.Function]bool, tr *ipTracer, g *c09Gate, lastFull string, isClockSource func(ssa.Value) bool) {
+	// pod writes (client verb calls)
+	var ops []*Effect
+	for _, e := range effectsOf(reach) {
+		if isWriteVerb(e.Verb) && e.Kind == pkgCoreV1+".Pod" && r.Prog.IsRuleSite(e.Fn) {
+			ops = append(ops, e)
+		}
+	}
 	isStatusWriter := func(fn *ssa.Function) bool {
 		for _, e := range effectsOf(r.Prog.reachableFuncs(fn)) {
 			if e.Status && isWriteVerb(e.Verb) && e.Kind == pkgAPI+".ExtendedDaemonSetReplicaSet" {
@@ -603,40 +716,57 @@ func c09StatusWrite(r *Run, rec *ssa.Function, ff *FuncFacts, podOps []*ssa.Call
 		return false
 	}
 	type upd struct {
-		call  *ssa.Call
-		notes []string
+		call   *ssa.Call
+		fn     *ssa.Function
+		status []ipLeaf
+		notes  []string
 	}
 	var updates []*upd
-	var writes []*ssa.Call
-	for _, ci := range callsIn(rec) {
-		c, ok := ci.(*ssa.Call)
-		if !ok {
+	type wr struct {
+		call *ssa.Call
+		fn   *ssa.Function
+	}
+	var writes []wr
+	for _, fn := range sortedFuncs(reach) {
+		if !r.Prog.IsRuleSite(fn) {
 			continue
 		}
-		if calleeName(&c.Call) == fnERSCondUpdate && len(c.Call.Args) == 8 {
-			if s, isS := constString(c.Call.Args[2]); isS && s == lastFull {
-				u := &upd{call: c}
-				nroot, _ := accessPath(c.Call.Args[1])
-				if clock == nil || nroot != ssa.Value(clock) {
-					u.notes = append(u.notes, "the time written is not the sync's clock value")
-				}
-				st, isS := constString(c.Call.Args[3])
-				wf, isB := constBool(c.Call.Args[6])
-				if !(isS && st == "True") && !(isB && wf) {
-					u.notes = append(u.notes, "the condition would not be created when absent (status is not the constant True)")
-				}
-				if su, isB := constBool(c.Call.Args[7]); !isB || !su {
-					u.notes = append(u.notes, "supportLastUpdate is not true: LastUpdateTime is not refreshed")
-				}
-				updates = append(updates, u)
+		for _, ci := range callsIn(fn) {
+			c, ok := ci.(*ssa.Call)
+			if !ok {
+				continue
 			}
-			continue
-		}
-		if cal := staticCallee(&c.Call); cal != nil && r.Prog.IsRuleSite(cal) && isStatusWriter(cal) {
-			writes = append(writes, c)
+			if calleeName(&c.Call) == fnERSCondUpdate && len(c.Call.Args) == 8 {
+				if s, isS := constString(c.Call.Args[2]); isS && s == lastFull {
+					u := &upd{call: c, fn: fn, status: tr.trace(c.Call.Args[0], fn)}
+					cl := rootLeaves(tr, c.Call.Args[1], fn)
+					switch {
+					case g != nil && !sameLeaves(cl, g.clock):
+						u.notes = append(u.notes, "the time written is not the clock value the spacing test compares with")
+					case len(cl) != 1 || cl[0].fn != rec || !isClockSource(cl[0].v):
+						u.notes = append(u.notes, "the time written is not the Reconcile's single clock read")
+					}
+					st, isS := constString(c.Call.Args[3])
+					wf, isB := constBool(c.Call.Args[6])
+					if !(isS && st == "True") && !(isB && wf) {
+						u.notes = append(u.notes, "the condition would not be created when absent (status is not the constant True)")
+					}
+					if su, isB := constBool(c.Call.Args[7]); !isB || !su {
+						u.notes = append(u.notes, "supportLastUpdate is not true: LastUpdateTime is not refreshed")
+					}
+					updates = append(updates, u)
+				}
+				continue
+			}
+			if cal := staticCallee(&c.Call); cal != nil && r.Prog.IsRuleSite(cal) && isStatusWriter(cal) {
+				writes = append(writes, wr{c, fn})
+			}
 		}
 	}
-	isRet := func(in ssa.Instruction) bool { _, ok := in.(*ssa.Return); return ok }
+	isRet := func(in ssa.Instruction) bool {
+		_, ok := in.(*ssa.Return)
+		return ok && in.Parent() == rec
+	}
 	validUpdate := func(in ssa.Instruction) bool {
 		for _, u := range updates {
 			if ssa.Instruction(u.call) == in && len(u.notes) == 0 {
@@ -645,8 +775,36 @@ func c09StatusWrite(r *Run, rec *ssa.Function, ff *FuncFacts, podOps []*ssa.Call
 		}
 		return false
 	}
-	for _, op := range podOps {
-		esc := reachAvoiding(op, isRet, validUpdate)
+	// functions worth entering: those from which a LastFullSync update / a status write is reachable
+	contains := func(pred func(ssa.Instruction) bool) func(*ssa.Function) bool {
+		memo := map[*ssa.Function]bool{}
+		return func(fn *ssa.Function) bool {
+			if v, ok := memo[fn]; ok {
+				return v
+			}
+			res := false
+			for f := range r.Prog.reachableFuncs(fn) {
+				for _, ci := range callsIn(f) {
+					if pred(ci) {
+						res = true
+					}
+				}
+			}
+			memo[fn] = res
+			return res
+		}
+	}
+	isAnyUpdate := func(in ssa.Instruction) bool {
+		for _, u := range updates {
+			if ssa.Instruction(u.call) == in {
+				return true
+			}
+		}
+		return false
+	}
+	descendU := contains(isAnyUpdate)
+	for _, op := range ops {
+		esc := ipWalk([]ssa.Instruction{op.Call}, rec, reach, func(f *ssa.Function) bool { return r.Prog.IsRuleSite(f) && descendU(f) }, isRet, validUpdate)
 		detail := ""
 		if esc != nil {
 			detail = "the return at " + r.Prog.Pos(instrPos(esc)) + " can be reached without updating LastFullSync"
@@ -656,22 +814,23 @@ func c09StatusWrite(r *Run, rec *ssa.Function, ff *FuncFacts, podOps []*ssa.Call
 				}
 			}
 		}
-		r.Check("C09.R6", "LastFullSync updated after call to "+shortFunc(staticCallee(&op.Call)), r.Prog.Pos(op.Pos()), shortFunc(rec),
-			"every path from a pod-writing call to a return updates the LastFullSync condition with the sync's clock value, status True and supportLastUpdate=true", esc == nil, detail)
+		r.Check("C09.R6", "LastFullSync updated after "+op.String(), r.Prog.Pos(op.Call.Pos()), shortFunc(op.Fn),
+			"every way from a pod write back to a return of the Reconcile updates the LastFullSync condition with the sync's clock value, status True and supportLastUpdate=true", esc == nil, detail)
 	}
 	for _, u := range updates {
-		statusKey := k.key(u.call.Call.Args[0])
+		u := u
 		isWrite := func(in ssa.Instruction) bool {
 			for _, w := range writes {
-				if ssa.Instruction(w) != in {
+				if ssa.Instruction(w.call) != in {
 					continue
 				}
-				hasStatus, hasRS := false, rs == nil
-				for _, a := range w.Call.Args {
-					if k.key(a) == statusKey {
+				hasStatus, hasRS := false, g == nil
+				for _, a := range w.call.Call.Args {
+					ls := tr.trace(a, w.fn)
+					if sameLeaves(ls, u.status) {
 						hasStatus = true
 					}
-					if rs != nil && a == rs {
+					if g != nil && sameLeaves(ls, g.rs) {
 						hasRS = true
 					}
 				}
@@ -679,18 +838,85 @@ func c09StatusWrite(r *Run, rec *ssa.Function, ff *FuncFacts, podOps []*ssa.Call
 			}
 			return false
 		}
-		esc := reachAvoiding(u.call, isRet, isWrite)
+		descendW := contains(isWrite)
+		esc := ipWalk([]ssa.Instruction{u.call}, rec, reach, func(f *ssa.Function) bool { return r.Prog.IsRuleSite(f) && descendW(f) }, isRet, isWrite)
 		detail := ""
 		if esc != nil {
 			detail = "the return at " + r.Prog.Pos(instrPos(esc)) + " can be reached without writing the updated status of the replica set that the spacing test reads"
 		}
-		r.Check("C09.R6", "status written after the LastFullSync update", r.Prog.Pos(u.call.Pos()), shortFunc(rec),
-			"every path from the LastFullSync update to a return writes that status object (Status().Update of the replica set just read)", esc == nil, detail)
+		r.Check("C09.R6", "status written after the LastFullSync update", r.Prog.Pos(u.call.Pos()), shortFunc(u.fn),
+			"every way from the LastFullSync update to a return of the Reconcile writes that status object (Status().Update of the replica set just read)", esc == nil, detail)
 	}
 	if len(updates) == 0 {
-		r.Check("C09.R6", "LastFullSync update", r.Prog.Pos(rec.Pos()), shortFunc(rec), "the Reconcile updates the LastFullSync condition", false, "no such call")
+		r.Check("C09.R6", "LastFullSync update", r.Prog.Pos(rec.Pos()), shortFunc(rec), "the code reachable from the Reconcile updates the LastFullSync condition", false, "no such call")
 	}
 	c09Updater(r)
+}
+
+// c09Refreshes reports whether, on every path of fn accepted by onPath, the LastUpdateTime of the
+// condition element is set to the time parameter now: by a store <elem>.LastUpdateTime = now, or by
+// a call to a repository helper that receives the element and now and does so on all its paths
+// (restricted to supportLastUpdate == true when that flag is handed on). n counts the paths looked at.
+func c09Refreshes(r *Run, fn *ssa.Function, isElem func(ssa.Value) bool, now, support *ssa.Parameter, onPath func(*Path) bool, depth int) (all bool, n int) {
+	paths, _, ok := funcPaths(fn, 5000)
+	r.paths += len(paths)
+	if !ok || depth > 3 {
+		return false, 0
+	}
+	all = true
+	for _, p := range paths {
+		if support != nil && p.Has(false, func(v ssa.Value, _ string) bool { return v == ssa.Value(support) }) {
+			continue // supportLastUpdate is false on this path
+		}
+		if onPath != nil && !onPath(p) {
+			continue
+		}
+		n++
+		done := false
+		for _, b := range p.Blocks {
+			for _, in := range b.Instrs {
+				switch x := in.(type) {
+				case *ssa.Store:
+					if fa, isFA := x.Addr.(*ssa.FieldAddr); isFA && fieldName(fa) == "LastUpdateTime" && isElem(fa.X) && (readsParam(x.Val, now) || x.Val == ssa.Value(now)) {
+						done = true
+					}
+				case *ssa.Call:
+					cal := staticCallee(&x.Call)
+					if cal == nil || !r.Prog.IsRuleSite(cal) || len(cal.Blocks) == 0 {
+						continue
+					}
+					var pe, pn, ps *ssa.Parameter
+					okArgs := true
+					for i, a := range x.Call.Args {
+						if i >= len(cal.Params) {
+							break
+						}
+						switch {
+						case isElem(a):
+							pe = cal.Params[i]
+						case readsParam(a, now) || a == ssa.Value(now):
+							pn = cal.Params[i]
+						case support != nil && a == ssa.Value(support):
+							ps = cal.Params[i]
+						}
+					}
+					if pe == nil || pn == nil {
+						continue
+					}
+					// a bool parameter of the helper that is not the handed-on flag could disable the refresh
+					_ = okArgs
+					sub, m := c09Refreshes(r, cal, func(v ssa.Value) bool { return v == ssa.Value(pe) }, pn, ps, nil, depth+1)
+					if sub && m > 0 {
+						done = true
+					}
+				}
+			}
+		}
+		if !done {
+			all = false
+		}
+	}
+	return all, n
 }
 
 // c09Updater checks the condition updater: with supportLastUpdate the stored LastUpdateTime is the
@@ -714,7 +940,6 @@ func c09Updater(r *Run) {
 		if cal == nil {
 			return false
 		}
-		var tparam *ssa.Parameter
 		idx := -1
 		for i, a := range c.Call.Args {
 			if readsParam(a, now) || a == ssa.Value(now) {
@@ -724,11 +949,11 @@ func c09Updater(r *Run) {
 		if idx < 0 || idx >= len(cal.Params) {
 			return false
 		}
-		tparam = cal.Params[idx]
+		tparam := cal.Params[idx]
 		for _, b := range cal.Blocks {
 			for _, in := range b.Instrs {
 				if st, isSt := in.(*ssa.Store); isSt {
-					if fa, isFA := st.Addr.(*ssa.FieldAddr); isFA && fieldName(fa) == "LastUpdateTime" && readsParam(st.Val, tparam) {
+					if fa, isFA := st.Addr.(*ssa.FieldAddr); isFA && fieldName(fa) == "LastUpdateTime" && (readsParam(st.Val, tparam) || st.Val == ssa.Value(tparam)) {
 						return true
 					}
 				}
@@ -736,21 +961,10 @@ func c09Updater(r *Run) {
 		}
 		return false
 	}
-	nExist, nNew := 0, 0
-	okExist, okNew := true, true
-	for _, p := range paths {
-		supp := p.Has(true, func(v ssa.Value, _ string) bool { return v == ssa.Value(support) })
-		stored, appended, created := false, false, false
+	appends := func(p *Path) (appended, created bool) {
 		for _, b := range p.Blocks {
 			for _, in := range b.Instrs {
-				switch x := in.(type) {
-				case *ssa.Store:
-					if fa, isFA := x.Addr.(*ssa.FieldAddr); isFA && fieldName(fa) == "LastUpdateTime" && readsParam(x.Val, now) {
-						if _, isIdx := fa.X.(*ssa.IndexAddr); isIdx {
-							stored = true
-						}
-					}
-				case *ssa.Call:
+				if x, isCall := in.(*ssa.Call); isCall {
 					if builtinCall(x, "append") != nil {
 						appended = true
 					} else if cal := staticCallee(&x.Call); cal != nil && r.Prog.IsRuleSite(cal) && ctorOK(x) {
@@ -759,25 +973,64 @@ func c09Updater(r *Run) {
 				}
 			}
 		}
-		if appended {
+		return
+	}
+	nNew, okNew := 0, true
+	for _, p := range paths {
+		if a, c := appends(p); a {
 			nNew++
-			if !created {
+			if !c {
 				okNew = false
-			}
-			continue
-		}
-		// paths that neither store nor append: condition absent and not created (status != True, no write flag)
-		exists := p.Has(false, func(v ssa.Value, key string) bool {
-			bo, isBo := v.(*ssa.BinOp)
-			return isBo && (bo.Op == token.GEQ || bo.Op == token.LSS) && strings.HasSuffix(key, "<c:0)")
-		})
-		if exists && supp {
-			nExist++
-			if !stored {
-				okExist = false
 			}
 		}
 	}
+	// an existing condition: the looked-up index is known to be >= 0 / != -1, or the looked-up
+	// condition pointer is known to be non-nil
+	isCondPtr := func(v ssa.Value) bool {
+		return isPtrToNamed(v.Type(), pkgAPI, "ExtendedDaemonSetReplicaSetCondition")
+	}
+	exists := func(p *Path) bool {
+		if a, _ := appends(p); a {
+			return false
+		}
+		for _, f := range p.Facts {
+			bo, isBo := f.V.(*ssa.BinOp)
+			if !isBo {
+				continue
+			}
+			switch bo.Op {
+			case token.GEQ, token.LSS: // key (idx<0)
+				if c, isC := constInt(bo.Y); isC && c == 0 && !f.Pol {
+					return true
+				}
+			case token.GTR, token.LEQ: // idx > -1 : key (-1<idx)
+				if c, isC := constInt(bo.Y); isC && c == -1 && f.Pol {
+					return true
+				}
+			case token.EQL, token.NEQ:
+				if c, isC := constInt(bo.Y); isC && c == -1 && !f.Pol {
+					return true
+				}
+				if c, isC := constInt(bo.X); isC && c == -1 && !f.Pol {
+					return true
+				}
+				if !f.Pol && (isNilConst(bo.Y) && isCondPtr(bo.X) || isNilConst(bo.X) && isCondPtr(bo.Y)) {
+					return true
+				}
+			}
+		}
+		return false
+	}
+	isElem := func(v ssa.Value) bool {
+		if _, isIdx := v.(*ssa.IndexAddr); isIdx {
+			return isCondPtr(v)
+		}
+		if _, isParam := v.(*ssa.Parameter); isParam {
+			return false
+		}
+		return isCondPtr(v)
+	}
+	okExist, nExist := c09Refreshes(r, fn, isElem, now, support, exists, 0)
 	r.Check("C09.R6", "updater refreshes LastUpdateTime", r.Prog.Pos(fn.Pos()), shortFunc(fn),
 		"with supportLastUpdate, an existing condition gets LastUpdateTime = now on every path", okExist && nExist > 0, fmt.Sprintf("%d path(s) with an existing condition", nExist))
 	r.Check("C09.R6", "updater creates the condition with now", r.Prog.Pos(fn.Pos()), shortFunc(fn),
